@@ -1,5 +1,6 @@
 import Secp.Proofs.Ecdh
 import Secp.Props.C03
+import Secp.Proofs.Slices
 /-
   Props/C14 — ECDH shared secrets agree on both sides.
   Model: `Secp.Model.ecdhM` (GenerateSharedSecret: ScalarMultNonConst, ToAffine, x as 32 bytes).
@@ -35,5 +36,14 @@ theorem ecdh_spec_unconditional (a b : Nat) (ha0 : 0 < a) (ha : a < N) (hb0 : 0 
     (x y : Nat) (hB : smul b G = some (x, y)) :
     ∃ sx sy, smul ((a * b) % N) G = some (sx, sy) ∧ ecdhM a (x, y) = be32 sx :=
   ecdh_spec Secp.Props.C03.pointSpec a b ha0 ha hb0 hb x y hB
+
+
+/-- Limb level of this property's own functions: the REGENERATED sliced field programs (tools/gotr pass T2s,
+    `Secp.Gen.Slices`) of `GenerateSharedSecret` (k·P, ToAffine, Bytes of a normalised x) pass the abstract interpreter on every path — no magnitude overflow, every
+    comparison / parity test / serialisation reads a normalised value, every callee's precondition holds,
+    every returned key or point is normalised.  Together with C05 (kernels) and C16 (`absPath_sound`,
+    `contracts_justified`) this is what makes the value-level model above faithful to the limb code. -/
+theorem ecdh_field_arithmetic_exact :
+    Secp.Proofs.Slices.entriesOK ["github.com/ModChain/secp256k1.GenerateSharedSecret", "github.com/ModChain/secp256k1.PrivateKey.ECDH", "github.com/ModChain/secp256k1.PublicKey.AsJacobian"] = true := by decide +kernel
 
 end Secp.Props.C14
